@@ -512,7 +512,8 @@ impl Circle2 {
     /// Compute and return two segments which are the outer tangents between this circle and another
     /// circle.
     ///
-    /// If the circles are concentric, the result will be `None`. Otherwise, both segments will
+    /// If the circles are concentric, or if one circle lies inside the other so that no outer
+    /// tangent exists, the result will be `None`. Otherwise, both segments will
     /// start on the tangency point on *this* circle and end on the tangency point on the other
     /// circle. The segments will be symmetric about the line connecting the two circle centers.
     ///
@@ -559,10 +560,12 @@ impl Circle2 {
             // https://upload.wikimedia.org/wikipedia/commons/7/7c/Aeussere_tangente_computation.svg
             // where we re-frame the problem as the point-to-circle tangent problem.
             let proxy = Circle2::new(other.x(), other.y(), other.r() - self.r());
-            // p0 is in the negative half space and p1 is in the positive half space
-            let (p0, p1) = proxy.tangent_points_to(&self.center).unwrap();
-            let s0 = Segment2::try_new(self.center, p0).unwrap();
-            let s1 = Segment2::try_new(self.center, p1).unwrap();
+            // p0 is in the negative half space and p1 is in the positive half space. If this circle
+            // lies inside the other one (or touches it from the inside) its center is not outside
+            // the proxy circle and there are no outer tangents.
+            let (p0, p1) = proxy.tangent_points_to(&self.center)?;
+            let s0 = Segment2::try_new(self.center, p0).ok()?;
+            let s1 = Segment2::try_new(self.center, p1).ok()?;
 
             Some((s0.offsetted(-self.r()), s1.offsetted(self.r())))
         }
